@@ -57,6 +57,12 @@ impl Vm {
     let alloc = Bump::new();
     let compiler = Compiler::new(module, &alloc, &line_offsets, file_id, repl, self, gc);
 
+    // earlier entries of a repl session keep using their cache slots so continue after them
+    let compiler = match self.inline_cache.get(module.id()) {
+      Some(cache) => compiler.with_cache_slots(cache.property_len(), cache.invoke_len()),
+      None => compiler,
+    };
+
     #[cfg(feature = "debug")]
     let compiler = compiler.with_io(self.io.clone());
 
@@ -64,15 +70,16 @@ impl Vm {
     self.gc.replace(gc);
 
     result.map(|fun| {
-      let cache = InlineCache::new(
-        cache_id_emitter.property_count(),
-        cache_id_emitter.invoke_count(),
-      );
-
       if module.id() < self.inline_cache.len() {
-        self.inline_cache[module.id()] = cache;
+        self.inline_cache[module.id()].grow(
+          cache_id_emitter.property_count(),
+          cache_id_emitter.invoke_count(),
+        );
       } else {
-        self.inline_cache.push(cache);
+        self.inline_cache.push(InlineCache::new(
+          cache_id_emitter.property_count(),
+          cache_id_emitter.invoke_count(),
+        ));
       }
       self.manage_obj(fun)
     })
